@@ -5997,7 +5997,10 @@ int64_t ExpressionEvaluator::evaluate_function_call_impl(const ASTNode *node) {
             }
 
             // Interface型のレシーバーの場合、implコンテキストを設定
-            if (receiver_var && receiver_var->type == TYPE_INTERFACE) {
+            // (an interface variable holding a primitive carries the
+            // primitive's type, so it is recognised by its interface_name)
+            if (receiver_var && (receiver_var->type == TYPE_INTERFACE ||
+                                 !receiver_var->interface_name.empty())) {
                 std::string interface_name = receiver_var->interface_name;
                 std::string struct_type = receiver_var->struct_type_name;
 
